@@ -170,6 +170,7 @@ func replayLinearFrom(cfg *Config, root string, ops []string, judgeFrom int) ([]
 			}
 		}
 	}
+	out = append(out, replayNodeHook(cfg, w, root, nil)...)
 	if judgeFrom > 0 {
 		out = nil
 	}
@@ -247,8 +248,24 @@ func replayLinearFrom(cfg *Config, root string, ops []string, judgeFrom int) ([]
 			}
 		}
 		parent = ms
+		out = append(out, replayNodeHook(cfg, w, root, path)...)
 	}
 	return out, nil
+}
+
+// replayNodeHook runs the property's node hook (extra exploration below a node, e.g. C13's claim-order
+// drain) at one node of a linear replay and returns what it records.
+func replayNodeHook(cfg *Config, w *World, root string, path []string) []Finding {
+	if cfg.NodeHook == nil {
+		return nil
+	}
+	x := &Explorer{Cfg: cfg, W: w, res: &unitResult{}, vioSeen: map[string]int{}}
+	cfg.NodeHook(x, len(path), append([]string{}, path...), root, 0)
+	var out []Finding
+	for _, v := range x.res.Violations {
+		out = append(out, v.Finding)
+	}
+	return out
 }
 
 // Conclude turns a Summary into evidence, replay files, stdout lines and an exit code.
